@@ -56,10 +56,10 @@ func runEffects(c *Ctx, rule string, specs []entrySpec, pkgOnly bool, delegated 
 	if len(entries) != len(specs) {
 		return
 	}
+	// VTA in both tiers: the CHA graph resolves every io.Writer call to every Write method of the
+	// program (HTTP servers, the extractor's main ...), which made the thorough tier report paths that do
+	// not exist; its extra "coverage" was only noise (see DESIGN 10.4).
 	cg := c.VTA()
-	if c.Tier == "thorough" {
-		cg = c.CHA()
-	}
 	e := newEffects(c, cg, entries)
 	e.pkgOnly = pkgOnly
 	fns := e.soyReachable()
